@@ -89,11 +89,15 @@ pub fn deadlock_signature(tasks: &[crate::sim::TaskLockState]) -> String {
                 let me = by_task[&cyc[i]];
                 let prev = by_task[&cyc[(i + n - 1) % n]];
                 // the lock of mine that prev waits for
-                let held_class = prev
-                    .wants_id
-                    .and_then(|wid| me.holds_ids.iter().position(|h| *h == wid))
-                    .map(|p| me.holds[p].clone())
-                    .unwrap_or_else(|| "?".into());
+                let held_class = if prev.wants.as_deref() == Some("join") {
+                    // prev waits for my thread to end
+                    "thread".to_string()
+                } else {
+                    prev.wants_id
+                        .and_then(|wid| me.holds_ids.iter().position(|h| *h == wid))
+                        .map(|p| me.holds[p].clone())
+                        .unwrap_or_else(|| "?".into())
+                };
                 parts.push(format!("{}[{}]>{}", role_of(&me.name), held_class, me.wants.clone().unwrap_or_default()));
             }
             // canonical rotation
@@ -109,6 +113,22 @@ pub fn deadlock_signature(tasks: &[crate::sim::TaskLockState]) -> String {
                 on_cycle.insert(*c);
             }
             cycles.push(best.join(" -> "));
+        }
+    }
+    if cycles.is_empty() {
+        // no cycle: a task waits for a lock whose holder is blocked in something that is not a lock (an idle
+        // receive, a condition): the lock is held across a wait that nobody can end
+        for t in tasks {
+            if let (Some(class), Some(owner)) = (&t.wants, t.blocked_by) {
+                if class == "join" {
+                    continue;
+                }
+                if let Some(o) = by_task.get(&owner) {
+                    if o.wants.is_none() && t.wants_id.map(|w| o.holds_ids.contains(&w)).unwrap_or(false) {
+                        cycles.push(format!("{}[{}]>wait <- {}>{}", role_of(&o.name), class, role_of(&t.name), class));
+                    }
+                }
+            }
         }
     }
     cycles.sort();
